@@ -3,6 +3,8 @@
 # /repo (which must be clean), its property's check is run with the given budget, the exit status must
 # be 1 (VIOLATION); the change is reverted straight afterwards.  C14-1 is expected to stay silent
 # (neutralised by fix bcce00e, see seeded/C14-1/meta.json).
+# The check is the one recorded in seeded/<id>/meta.json (detected_by.check).  Do not run it while a soak
+# (vp run) is using /repo; tools/regress_mutants.sh does the same on scratch worktrees.
 # usage: tools/selftest_sensitivity.sh [budget_s] [ids...]
 B=${1:-25}; shift
 cd /verif
@@ -10,7 +12,7 @@ ids=${@:-$(ls seeded | grep -v RESULTS)}
 git -C /repo diff --quiet || { echo "/repo has uncommitted changes: refusing"; exit 2; }
 miss=0
 for m in $ids; do
-  p=${m%%-*}
+  p=$(python3 -c "import json; m=json.load(open('seeded/$m/meta.json')); print((m.get('detected_by') or {}).get('check') or m.get('property'))")
   if ! git -C /repo apply --check seeded/$m/patch.diff 2>/dev/null; then echo "$m: patch does not apply to the current tree"; continue; fi
   git -C /repo apply seeded/$m/patch.diff
   s=$(date +%s)
